@@ -5,7 +5,7 @@ from datetime import datetime, timedelta, timezone
 from hypothesis import strategies as st
 
 ADVERSARIAL = [
-    "_none", "_tag_", "t_", "f_", "_field_", "t", "f", "_", "", ",", '"', "'", "\r", "\n", "\r\n", "\0", " ", "  x  ", "_default", "_none_", "_tag_a", "t_a", "_field_a", "f_a",
+    "_none", "_tag_", "t_", "f_", "_field_", "t", "f", "_", "", ",", '"', "'", "\r", "\n", "\r\n", "\0", " ", "  x  ", "_default", "_none_", "__none", "_None", "__none_", "_tag_a", "t_a", "_field_a", "f_a",
     "a,b", 'a"b', "a\nb", "a\rb", "a\r\nb", "\\", "\\n", ";", "\t", "|", "é", "日本", " ", "\x85", "-1", "1.0", "nan", "inf", "1e5", "0", "None", "null", "=1+1", "﻿",
 ]
 
